@@ -382,9 +382,12 @@ func (r *runner) run1(ev *evidence) int {
 					break
 				}
 			}
-			if time.Now().After(deadline) {
+			if time.Now().After(deadline) || nviol >= 3 {
 				break
 			}
+		}
+		if nviol >= 3 {
+			break
 		}
 		for _, c := range h.Covers {
 			if !covered[c] {
